@@ -26,7 +26,7 @@ FLOORS = {
                  'valuations_judged': 2000000, 'smallscope_terms': 50000, 'predicates_judged': 20000},
 }
 BUDGET = {'quick': {'random': 16000, 'ss_fills': 2, 'envs': 24},
-          'thorough': {'random': 220000, 'ss_fills': 12, 'envs': 40}}
+          'thorough': {'random': 800000, 'ss_fills': 40, 'envs': 40}}
 TIMEOUT = {'quick': 900, 'thorough': 7200}
 
 
